@@ -232,6 +232,52 @@ Theorem C20_suppressed_warning_is_redacted_in_the_report :
 Proof. exact report_redacts. Qed.
 Print Assumptions C20_suppressed_warning_is_redacted_in_the_report.
 
+(* ---- round 4 ----
+   Case-insensitive means: per character, folded onto the ASCII lower-case letter it is a case
+   variant of ([lower_c]: A-Z and the regenerated table C20_casefold_extra = the non-ASCII code
+   points that match an ASCII letter under re.IGNORECASE, cross-checked against the str case
+   mappings).  [sensitive_spec] and [sensitive_code] both use it, so the three key theorems at the
+   top quantify over keys spelled with U+017F (long s), U+212A (Kelvin sign), U+0130, U+0131 too.
+   Here: the table is what the theorems were checked against, and the reviewer's keys. *)
+Theorem C20_non_ascii_case_variants_are_matched :
+  C20_casefold_extra = [(304, 105); (305, 105); (383, 115); (8490, 107)] /\
+  forallb (fun k => sensitive_spec k && sensitive_code k)
+    [T "pa" ++ [383; 383] ++ T "word"; T "DB_PA" ++ [383; 383] ++ T "WORD"; T "client_" ++ [383] ++ T "ecret";
+     T "credential" ++ [383] ++ T "_file"; T "api_" ++ [8490] ++ T "ey"; T "CREDENT" ++ [304] ++ T "ALS";
+     T "credent" ++ [305] ++ T "als"; T "X_TO" ++ [8490] ++ T "EN"; T "my" ++ [383] ++ T "ecret_" ++ [8490] ++ T "EY"] = true /\
+  forallb (fun k => negb (sensitive_spec k) && negb (sensitive_code k))
+    [T "pa" ++ [223] ++ T "word"; T "pa" ++ [383; 383] ++ T "words"; [8490] ++ T "ey"; T "to" ++ [8490] ++ T "en";
+     T "credent" ++ [237] ++ T "als"; T "pa" ++ [353; 353] ++ T "word"] = true.
+Proof. exact nonascii_keys. Qed.
+Print Assumptions C20_non_ascii_case_variants_are_matched.
+
+(* GoogleLogger.write_event with a TEXT message (F-C20-9, e6db699): a text that is a JSON object
+   gives exactly what the dict gives (clean_record_model, all theorems above); from any other
+   text the user-info after the first "://" is replaced by the fixed mark, and so on. *)
+Theorem C20_gcl_text_message_is_sanitized :
+  (forall (digest : text -> text) (o : obj) (t : text),
+     gcl_text_event digest (Some o) t = GDict (clean_record_model digest false o)) /\
+  (forall (digest : text -> text) (pre userinfo post : text),
+     contains [58; 47; 47] pre = false ->
+     existsb (fun c => (c =? 64) || (c =? 10)) userinfo = false ->
+     gcl_text_event digest None (pre ++ [58; 47; 47] ++ userinfo ++ [64] ++ post) =
+     GText (pre ++ C20_gcl_url_replacement ++ gcl_url_step post)).
+Proof. exact gcl_text_sanitized. Qed.
+Print Assumptions C20_gcl_text_message_is_sanitized.
+
+(* F-C20-10 (a375704): the report GoogleLogger builds for a dropped TEXT warning that holds a URL
+   carries the text with its user-info replaced by the fixed mark (the report is a dict, and
+   clean_record works by key only). *)
+Theorem C20_gcl_report_of_url_text_has_no_userinfo :
+  forall (n : nat) (pre userinfo post : text),
+  contains [58; 47; 47] pre = false ->
+  existsb (fun c => (c =? 64) || (c =? 10)) userinfo = false ->
+  report_obj true (WText (pre ++ [58; 47; 47] ++ userinfo ++ [64] ++ post) None) n =
+  [(T "message", JStr (T "The following message was suppressed " ++ dec_of_nat n ++ T " time(s)"));
+   (T "suppressed", JStr (pre ++ C20_gcl_url_replacement ++ gcl_url_step post))].
+Proof. exact gcl_report_url_text. Qed.
+Print Assumptions C20_gcl_report_of_url_text_has_no_userinfo.
+
 (* Non-vacuity. *)
 Definition ex_record : obj :=
   [(T "user", JStr (T "bob"));
@@ -326,3 +372,7 @@ Example C20_nonvacuous_warning_session :
     [(T "message", T "The following message was suppressed 2 time(s)");
      (T "suppressed", T "{'password': '<redacted:0a1b2c3d>', 'note': 'n'}")].
 Proof. repeat split; vm_compute; reflexivity. Qed.
+
+Example C20_nonvacuous_gcl_url :
+  gcl_text_event (fun _ => []) None (T "connect postgres://alice:s3cret@db/x") = GText (T "connect postgres://<redacted>db/x").
+Proof. vm_compute. reflexivity. Qed.
